@@ -133,12 +133,65 @@ def dialect_classes(repo):
   return out
 
 
+def class_attr(repo, m, cls, attr):
+  """class-level value of `attr` as an instance of `cls` sees it (own class
+  first, then the bases of the same module); None if not a class attribute."""
+  order, seen = [cls], {cls}
+  i = 0
+  while i < len(order):
+    c = m.classes.get(order[i])
+    i += 1
+    if c is None:
+      continue
+    for st in c.node.body:
+      if isinstance(st, ast.Assign):
+        for t in st.targets:
+          if isinstance(t, ast.Name) and t.id == attr:
+            return st.value
+    for b_ in c.bases:
+      if b_ in m.classes and b_ not in seen:
+        seen.add(b_)
+        order.append(b_)
+  return None
+
+
+def with_class_attrs(repo, m, cls, fi):
+  """`fi` with every `self.<attr>` that is a class-level constant of `cls`
+  replaced by that constant (a scalar property kept as a class attribute and
+  read through an accessor is the value the accessor used to return)."""
+  from .model import clone, FuncInfo
+  hits = [x for x in walk_local(fi.node) if isinstance(x, ast.Attribute) and
+          isinstance(x.value, ast.Name) and x.value.id == 'self' and isinstance(x.ctx, ast.Load)
+          and class_attr(repo, m, cls, x.attr) is not None]
+  if not hits:
+    return fi
+  node = clone(fi.node)
+
+  class T(ast.NodeTransformer):
+    def visit_Attribute(self, x):
+      self.generic_visit(x)
+      if isinstance(x.value, ast.Name) and x.value.id == 'self' and isinstance(x.ctx, ast.Load):
+        v = class_attr(repo, m, cls, x.attr)
+        if v is not None and not isinstance(v, (ast.Lambda,)):
+          return ast.copy_location(clone(v), x)
+      return x
+  node = T().visit(node)
+  ast.fix_missing_locations(node)
+  f2 = FuncInfo(m, fi.qualname, node, fi.cls, None)
+  for x in walk_local(node):
+    if isinstance(x, ast.Name):
+      x._mod = m
+      x._fi = f2
+  return f2
+
+
 def dialect_table(repo, cls, method):
   """Template dict returned by <cls>.<method>() (own or inherited)."""
   m = repo.by_name('dialects')
   fi = repo.lookup_method(m, cls, method)
   if fi is None:
     return None, None
+  fi = with_class_attrs(repo, m, cls, fi)
   d = tables.returned_dict_of_method(fi)
   return {k: (tables.const_value(v) if not (isinstance(v, ast.Constant) and v.value is None) else None)
           for k, v in d.items()}, fi
@@ -149,6 +202,7 @@ def dialect_const(repo, cls, method):
   fi = repo.lookup_method(m, cls, method)
   if fi is None:
     return None, None
+  fi = with_class_attrs(repo, m, cls, fi)
   return tables.returned_const(fi), fi
 
 
